@@ -46,10 +46,13 @@ def userSem (tag : Str) (dir : Dir) (data : List (Coor Float)) : Option (List (C
     | .inv => some (data, 0)
   else none
 
-def sem : LeafSem Float := fun tag params dir data =>
+def semWith (genv : Grid.GridEnv Float) : LeafSem Float := fun tag params dir data =>
   match userSem tag dir data with
   | some r => r
-  | none => Registry.sem Float tag params dir data
+  | none => Registry.sem Float genv tag params dir data
+
+/-- no grids served (the `Minimal` context) -/
+def sem : LeafSem Float := semWith fun _ => none
 
 def ellpsKnown (name : Str) : Bool :=
   Gen.ellipsoidNames.contains (String.ofList name) ||
@@ -66,7 +69,7 @@ structure CtxSpec where
   users : List (Str × String)
   plain : Bool := false
 
-def mkEnv (c : CtxSpec) : Env Float :=
+def mkEnvWith (ce : Ops.CtorEnv) (c : CtxSpec) : Env Float :=
   { builtin := Registry.builtin Float ce
     user := fun name =>
       match c.users.reverse.find? (·.1 == name) with
@@ -74,6 +77,8 @@ def mkEnv (c : CtxSpec) : Env Float :=
       | none => none
     resource := fun name => (c.resources.reverse.find? (·.1 == name)).map (·.2)
     ellpsKnown := ellpsKnown }
+
+def mkEnv (c : CtxSpec) : Env Float := mkEnvWith ce c
 
 def globals : PMap := [(S "ellps", S "GRS80")]
 
@@ -99,7 +104,7 @@ def parseCtx (fields : List String) : CtxSpec × List String :=
 
 def parseDir (s : String) : Dir := if s == "I" then .inv else .fwd
 
-def handleOp (fields : List String) : String :=
+def handleOpCore (ce : Ops.CtorEnv) (sem : LeafSem Float) (fields : List String) : String :=
   let (ctx, rest) := parseCtx fields
   match rest with
   | [defn, mode, dir, data] =>
@@ -107,7 +112,7 @@ def handleOp (fields : List String) : String :=
     match (if ctx.plain then Proj.parseProj (u defn) else .ok (u defn)) with
     | .error e => "err " ++ e.name
     | .ok defn' =>
-    match Op.new (mkEnv ctx) globals defn' with
+    match Op.new (mkEnvWith ce ctx) globals defn' with
     | .error e => "err " ++ e.name
     | .ok op =>
       let tree := if mode == "tree" || mode == "both" then " tree=" ++ dumpOp op
@@ -119,6 +124,8 @@ def handleOp (fields : List String) : String :=
         else ""
       "ok" ++ tree ++ app
   | _ => "bad-case"
+
+def handleOp (fields : List String) : String := handleOpCore ce sem fields
 
 def dumpList (l : List Str) : String := "[" ++ "|".intercalate (l.map escape) ++ "]"
 
@@ -270,6 +277,26 @@ def decodeGrid (fmt payload : String) : Except Err (Nat × (Float → Float → 
     | .ok g => .ok (2, fun lon lat m => Ntv2.atPoint g lon lat m)
     | .error e => .error e
 
+/-- read `n` triples (name, format, payload) -/
+def takeTriples : Nat → List String → List (String × String × String) × List String
+  | 0, fs => ([], fs)
+  | n + 1, a :: b :: c :: fs => let (ps, r) := takeTriples n fs; ((a, b, c) :: ps, r)
+  | _ + 1, fs => ([], fs)
+
+/-- an `OP` case on a context that serves the given grid files by name -/
+def handleOpG (fields : List String) : String :=
+  match fields with
+  | ngrids :: rest =>
+    let (triples, rest) := takeTriples ngrids.toNat! rest
+    let decoded : List (Str × Grid.GridObj Float) := triples.filterMap fun t =>
+      match decodeGrid t.2.1 t.2.2 with
+      | .ok g => some (u t.1, { bands := g.1, look := g.2 })
+      | .error _ => none
+    let genv : Grid.GridEnv Float := fun name => (decoded.find? (·.1 == name)).map (·.2)
+    let ceG : Ops.CtorEnv := { ellpsKnown := ellpsKnown, gridBands := fun name => (genv name).map (·.bands), gridErr := .notFound }
+    handleOpCore ceG (semWith genv) rest
+  | _ => "bad-case"
+
 def dumpAt (r : Option (Coor Float)) : String := match r with | some c => dumpCoor c | none => "none"
 
 def parsePoints (s : String) : List (Float × Float) :=
@@ -314,6 +341,7 @@ def handle (line : String) : String :=
   | "REG" :: rest => handleReg rest
   | "PROJ" :: rest => handleProj rest
   | "OP" :: rest => handleOp rest
+  | "OPG" :: rest => handleOpG rest
   | "TOK" :: rest => handleTok rest
   | kind :: _ => if kind.startsWith "S_" then "-" else "bad-case"
   | _ => "bad-case"
